@@ -79,9 +79,12 @@ def gen(rng, budget, tier):
     # the final report (internal/clients/maprclient.go Start) against the periodic reporter on the same result:
     # the final outfile must account for every group although an interim report is in flight
     yield "c15.race 3000 12"
+    # the client's reporting path: periodic reporter + final report against merging connection handlers
+    yield "c06.report 6 200 12"
     yield from _gen_c06(rng, budget, tier)
 
 
 def batches(cases):
     # the race case on its own (first), the timed scripts afterwards
-    return [[c for c in cases if c.startswith("c15.race")], [c for c in cases if not c.startswith("c15.race")]]
+    first = ("c15.race", "c06.report")
+    return [[c for c in cases if c.startswith(first)], [c for c in cases if not c.startswith(first)]]
